@@ -8,12 +8,8 @@ use std::{
     num::{NonZeroU32, NonZeroU64},
     ops::AddAssign,
     ops::{Index, IndexMut},
+    sync::atomic::{AtomicU64, Ordering},
 };
-
-#[cfg(not(zydeco_verif))]
-use std::sync::atomic::{AtomicU64, Ordering};
-#[cfg(zydeco_verif)]
-use verif_sync::{AtomicU64, Ordering};
 
 /// Verification hook, compiled only with `--cfg zydeco_verif`: the atomic behind the key-space
 /// counter comes from a file named by the `ZYDECO_VERIF_SYNC` environment variable, so that a
@@ -47,6 +43,8 @@ pub struct KeySpaceId(NonZeroU64);
 
 impl KeySpaceId {
     fn fresh() -> Self {
+        #[cfg(zydeco_verif)]
+        use verif_sync::{AtomicU64, Ordering};
         static NEXT_KEY_SPACE_ID: AtomicU64 = AtomicU64::new(0);
 
         let id = NEXT_KEY_SPACE_ID
